@@ -1,9 +1,23 @@
 package evsim
 
+import "github.com/ethereum/go-ethereum/core/vm"
+
 // Templates added after the first findings were recorded are registered here, in a file that sorts last, so that the
 // genesis-contract addresses of the older templates (and with them every recorded replay file) stay what they were.
+// TmplSlotWriter: calldata = key | value | mode. SSTORE(key, value); mode != 0: SELFDESTRUCT(caller) afterwards.
+// Reaches the slots at the ends of the key space (0, 2^256-1) that the fixed templates never touch.
+func TmplSlotWriter() []byte {
+	a := NewAsm()
+	a.Push(0x20).Op(vm.CALLDATALOAD).Push(0).Op(vm.CALLDATALOAD, vm.SSTORE)
+	a.Push(0x40).Op(vm.CALLDATALOAD, vm.ISZERO).PushLabel("end").Op(vm.JUMPI)
+	a.Op(vm.CALLER, vm.SELFDESTRUCT)
+	a.Label("end").Op(vm.STOP)
+	return a.Bytes()
+}
+
 func init() {
 	templates["fwd"] = TmplFwd
 	templates["vw"] = TmplViewWit
-	TemplateNames = append(TemplateNames, "fwd", "vw")
+	templates["slotw"] = TmplSlotWriter
+	TemplateNames = append(TemplateNames, "fwd", "vw", "slotw")
 }
